@@ -274,7 +274,7 @@ func stateOf(h http.Header) *e2eState {
 func appHeaders(h http.Header) map[string][]string {
 	out := map[string][]string{}
 	for k, v := range h {
-		if strings.HasPrefix(k, "X-") && k != "X-Verif-Sid" && k != "X-Verif-Call" {
+		if strings.HasPrefix(k, "X-") && k != "X-Verif-Sid" && k != "X-Verif-Call" && k != "X-Verif-Seen" {
 			out[k] = append([]string(nil), v...)
 		}
 	}
@@ -351,6 +351,20 @@ func (lateError) WrapStreamingHandler(next connect.StreamingHandlerFunc) connect
 		}
 		return err
 	}
+}
+
+// annotate does what an error-annotating interceptor would: it tags the error a call returned (also the one that
+// reports the clean end of a stream) with the call's id. An error value belongs to the call that returned it: a tag
+// left by another call means the library handed the same value to two calls.
+func annotate(err error, sid string, foreign *bool) {
+	var ce *connect.Error
+	if !errors.As(err, &ce) {
+		return
+	}
+	if seen := ce.Meta().Get("X-Verif-Seen"); seen != "" && seen != sid {
+		*foreign = true
+	}
+	ce.Meta().Set("X-Verif-Seen", sid)
 }
 
 func (st *e2eState) payload(m msgSc) *BV {
@@ -629,6 +643,7 @@ func runE2E(raw json.RawMessage, seed int64, rec *Rec) {
 		h.Set("X-Verif-Sid", sid)
 		addAll(h, sc.ReqHdr)
 	}
+	eofForeign := false
 	var peerErr map[string]any
 	peerOK := false
 	kindSel := sc.Kind
@@ -699,6 +714,7 @@ func runE2E(raw json.RawMessage, seed int64, rec *Rec) {
 			for { // the receiving goroutine
 				m, err := bs.Receive()
 				if err != nil {
+					annotate(err, sid, &eofForeign) // annotating an error a call returned is ordinary user code
 					if !isEOF(err) {
 						cerr = err
 					}
@@ -723,6 +739,7 @@ func runE2E(raw json.RawMessage, seed int64, rec *Rec) {
 		for {
 			m, err := bs.Receive()
 			if err != nil {
+				annotate(err, sid, &eofForeign) // annotating an error a call returned is ordinary user code
 				if !isEOF(err) {
 					cerr = err
 				}
@@ -869,8 +886,11 @@ func runE2E(raw json.RawMessage, seed int64, rec *Rec) {
 	lateErr := errView(cerr)
 	// whose response headers ended up in this call's error metadata?
 	metaCall := "na"
+	if eofForeign {
+		metaCall = "foreign" // the end-of-stream error of this call carried another call's annotation
+	}
 	var lce *connect.Error
-	if errors.As(cerr, &lce) {
+	if errors.As(cerr, &lce) && !eofForeign {
 		switch v := lce.Meta().Get("X-Verif-Call"); v {
 		case "":
 			metaCall = "absent"
